@@ -1,5 +1,43 @@
 """C03 - Every query gets exactly one matching response whatever the upstream does (DESIGN.md section 4, C03)."""
+import json, os, random
 import vf, routerfam
+
+
+def conn_life(ctx, drv):
+    """ConnLife.tla: a connection of a stream listener with queries in flight is not idle. Exhaustive check, the
+    code as found (Fix = FALSE) rejected, then every client script TLC enumerates (quick: a sample) is run against
+    the real tcp / gnet / tls listeners with idle_timeout: 1 and validated by ConnLifeTrace."""
+    ctx.exhaustive("ConnLife", "ConnLife_MC", timeout=300, workers=4)
+    ctx.exhaustive("ConnLife", "ConnLife_live", timeout=300, workers=4)
+    b = vf.tlc("ConnLife", cfg="ConnLife_bug", timeout=300, workers=4)
+    if b.ok or b.violated != "Inv_C03_NoCloseInFlight":
+        raise vf.MachineryError("sensitivity run did not reject the idle timer that ignores queries in flight")
+    g = vf.tlc("ConnLife", cfg="ConnLife_Gen", workers=1, timeout=600)
+    scns, seen = [], set()
+    for s in vf.tlc_values(g.out, "SCN"):
+        k = json.dumps(s["sends"])
+        if isinstance(s, dict) and s["sends"] and k not in seen and s["closed"] <= 11:
+            seen.add(k)
+            scns.append(s)
+    if len(scns) < 100:
+        raise vf.MachineryError("too few connection scripts from ConnLife_Gen: %d" % len(scns))
+    total = len(scns)
+    random.Random(ctx.seed).shuffle(scns)
+    if ctx.quick:
+        scns = scns[:70]
+    f = ctx.path("connlife.json")
+    json.dump(scns, open(f, "w"))
+    ctx.sample({"connection_script_from_TLC": scns[0]})
+    trace, _ = routerfam.run_mode(ctx, drv, "connlife", ["-rules", f], timeout=1800)
+    t2 = ctx.path("connlife.cl2.ndjson")
+    with open(t2, "w") as o:
+        for line in open(trace):
+            if '"ev": "cl2.' in line or '"ev":"cl2.' in line:
+                o.write(line)
+    ctx.extra["conn_life"] = {"scripts_enumerated": total, "scripts_run": len(scns), "listeners": ["tcp", "gnet", "tls"]}
+    ctx.validate("ConnLifeTrace", t2, lambda ev, inv: "%s:%s" % (inv, ev.get("ev", "?")),
+                 describe=lambda ev, inv: "%s at %s" % (inv, json.dumps(ev)[:300]), timeout=900,
+                 require_events=3 * len(scns), only=["Inv_C03_", "Unconsumable"])
 
 
 def run(ctx):
@@ -11,6 +49,7 @@ def run(ctx):
     args = ["-thorough"] if not ctx.quick else []
     trace, _ = routerfam.run_mode(ctx, drv, "c03", args)
     routerfam.validate(ctx, trace, only=["Inv_C03_", "Unconsumable"], require_events=800)
+    conn_life(ctx, drv)
     ctx.assumptions += [
         "upstream fault model: reply (any rcode), undecodable reply, connection failure, silence; a decodable reply with a foreign question is outside the stated model",
         "responses are parsed by an independent implementation (miekg/dns) in the harness; TLC evaluates header/rcode/deadline invariants on the parsed fields",
